@@ -89,6 +89,23 @@ def find_item(src: str, m: str, spec: str, file: str) -> Item:
         it = Item(spec, "closure", mm.group(3), body, file, line)
         it.closure_params = params
         return it
+    if kind == "impl":
+        # `impl TYPE[#k]`: the k-th inherent `impl TYPE { .. }` block, copied whole (used for blocks of associated consts)
+        cands = []
+        for k in re.finditer(r"\bimpl\b", m):
+            if L.in_test_mod(m, k.start()) or L.enclosing_blocks(m, k.start()):
+                continue
+            o = m.find("{", k.end())
+            if o < 0:
+                continue
+            st = _impl_selfty(m[k.start():o])
+            if st is None or st[0] is not None or st[1] != name:
+                continue
+            cands.append((k.start(), L.match_close(m, o) + 1))
+        if not cands or (sel or 1) > len(cands):
+            raise LostAnchor("%s: `%s` not found" % (file, spec))
+        a, b = cands[(sel or 1) - 1]
+        return Item(spec, "implblock", name, src[a:b], file, _line_of(src, a))
     if kind == "arm":
         # `arm OWNER::FN => PATTERN-PREFIX as NAME`: the body of the match arm of fn OWNER::FN whose pattern starts with the
         # given text is lifted to a named function (rule R19, match-arm form); signature declared in unit.toml (`sig`),
